@@ -151,6 +151,14 @@ def session(d):
     return _SESS[key]
 
 
+def forget_ribs():
+    """ExaBGP keeps the RIB of a neighbor name across Configuration objects (for reloads); a configuration built by the
+    harness must start with empty Adj-RIB-Outs, or its cache would (rightly) not send again what an earlier one sent"""
+    from exabgp.rib import RIB
+
+    RIB._cache.clear()
+
+
 class Fanout:
     """ONE Configuration with several neighbors (different local addresses and session kinds), as a running ExaBGP
     has; routes go in through the real fan-out entry points Configuration.announce_route / withdraw_route (what the
@@ -165,6 +173,7 @@ class Fanout:
         from exabgp.protocol.ip import IP
         from exabgp.reactor.api import API
 
+        forget_ribs()
         settings = ConfigurationSettings()
         settings.neighbors = []
         for d in sds:
@@ -237,10 +246,12 @@ def fanout(sds):
     return _FAN[key]
 
 
-def make_entry_cases(sds, route, targets):
+def make_entry_cases(sds, route, targets, fresh_conf=False):
     """the route text through the real fan-out; one case per target neighbor (judged against ITS session) plus what
     must NOT happen: -> (cases, problems) where problems = [(sig, what, detail)]"""
-    fan = fanout(sds)
+    # replays and shrink candidates get a configuration of their own: the Adj-RIB-Out cache of a long-lived one would
+    # (rightly) not re-send a route it has already sent
+    fan = Fanout(sds) if fresh_conf else fanout(sds)
     text = render(route)
     out, err = fan.send(route, text, targets)
     entry = {'sessions': list(sds), 'targets': list(targets), 'fan_out_order': [fan.names.index(n) for n in fan.order if n in fan.names]}
@@ -292,6 +303,7 @@ def make_config_cases(sds, routes):
     texts = [render(r) for r in routes]
     text = config_text(sds, texts)
     entry = {'sessions': list(sds), 'targets': list(range(len(sds))), 'fan_out_order': [], 'template_routes': list(routes)}
+    forget_ribs()
     conf = Configuration([text], text=True)
     try:
         ok = conf.reload()
@@ -1051,7 +1063,7 @@ def case_from_replay(case):
         idx = next((i for i, c in enumerate(cs) if c['entry']['index'] == case['entry'].get('index') and c['text'] == case.get('route_text')), 0)
         return cs, idx
     if 'entry' in case:
-        cs, _ = make_entry_cases(case['entry']['sessions'], route, case['entry']['targets'])
+        cs, _ = make_entry_cases(case['entry']['sessions'], route, case['entry']['targets'], fresh_conf=True)
         idx = next((i for i, c in enumerate(cs) if c['entry']['index'] == case['entry'].get('index')), 0)
         return cs, idx
     if 'group' in case:
@@ -1345,7 +1357,7 @@ def check(tier, seed):
             elif 'entry' in best:  # keep the configuration and the targets; shrink the route only
                 cands = []
                 for r in shrink(best['route']):
-                    cs_, _pb = make_entry_cases(best['entry']['sessions'], r, best['entry']['targets'])
+                    cs_, _pb = make_entry_cases(best['entry']['sessions'], r, best['entry']['targets'], fresh_conf=True)
                     cands += [c for c in cs_ if c['entry']['index'] == best['entry']['index']]
             elif 'group' in best:  # keep the shared parse and the order of the sessions; shrink the route only
                 cands = []
